@@ -3,7 +3,8 @@ C02/C13 — the backing data graph served by synchronous resolvers, and response
 
 `RVal` is what a resolver hands back (or what sits in a list): `null` (`None`), a leaf, `raise`
 (at a field position: the resolver raises an exception; inside a list: an `Exception` instance,
-which `complete_value` raises), a list, or an object node with the `__typename` the type resolver
+which `complete_value` raises; `ownPath` is the path of a `GraphQLError` that already carries one —
+`located_error` keeps such an error as it is, both executors report it under its own path), a list, or an object node with the `__typename` the type resolver
 reads and a *resolver function* `field name → coerced arguments → RVal`.  Resolvers are functions,
 so the theorems quantify over all (pure, synchronous) resolvers, not only finite tables; the
 recursion of both executors is structural on this tree.
@@ -32,10 +33,16 @@ inductive TN where
   | bad
   deriving Repr, DecidableEq, Inhabited
 
+/-- Response path segment (`Path.as_list()`). -/
+inductive PSeg where
+  | key (k : Name)
+  | idx (i : Nat)
+  deriving Repr, DecidableEq, Inhabited
+
 inductive RVal where
   | null
   | leaf (l : PyLeaf)
-  | raise (tag : Nat)
+  | raise (tag : Nat) (ownPath : Option (List PSeg))
   | list (items : List RVal)
   | obj (tn : TN) (resolve : Name → ArgMap → RVal)
   deriving Inhabited
@@ -59,12 +66,6 @@ inductive Json where
   | list (xs : List Json)
   | obj (kvs : List (Name × Json))
   deriving Repr, Inhabited
-
-/-- Response path segment (`Path.as_list()`). -/
-inductive PSeg where
-  | key (k : Name)
-  | idx (i : Nat)
-  deriving Repr, DecidableEq, Inhabited
 
 /-- Why a field error was raised (message wording is not part of the model). -/
 inductive ErrKind where
